@@ -149,6 +149,23 @@ def run(chk):
         chk.ob(f"staging/do-mac/value {vname}: emission == compilation of as_model(value)", ok, "structural", "proved",
                detail=(sx.show(out.result) if out.ok else repr(out.exc)) + " vs " + (sx.show(want.result) if want.ok else repr(want.exc)),
                replay=None if ok else _replay_do_mac(vname, val))
+    # "runs once at compile time" for a staging form wherever it stands: every rule compiles each of its sub-forms at most once (a rule
+    # that compiles a sub-form twice - and throws one result away - runs the compile-time half of any staging form inside it twice),
+    # over the whole rule catalogue and every shape vector
+    from hv import structural
+
+    def compiled_once(entry, sv):
+        toks, form, out = structural.emit(entry, sv)
+        counts = {}
+        for t in out.compiled:
+            counts[t.name] = counts.get(t.name, 0) + 1
+        twice = sorted(n for n, k in counts.items() if k > 1)
+        if twice:
+            return ("violated", f"compiled more than once: {', '.join(twice)}" + ("\n" + sx.show(out.result) if out.ok else ""), None)
+        if not out.ok and sx.is_hy_user_error(out.exc):
+            return ("hy-error", None, None)
+        return ("ok", None, None)
+    structural.run(chk, "compile-once", compiled_once, prefix="compile-once")
     # defmacro
     from hy.reader import mangle
     import hy.macros as hmac
